@@ -176,6 +176,32 @@ def correspondence(ctx):
         entries.append((mk, {"kind": "tree", "case": {"history": h, "tree": t, "frac": frac, "style": style}}))
         for k_, v_ in (style or {"plain": 1}).items():
             res.count("style:{}={}".format(k_, v_))
+    # read the result, change an operand's unit through the public setter (same object), recalculate, read again
+    for _ in range(ctx.n(120, 2000)):
+        h = ul.rand_history(rng)
+        t, idx, new = ul.gen_setunit(rng, h, ul.named_leafgen(h))
+        style = ul.rand_style(rng, 0.6)
+        try:
+            obs = ul.run_setunit(h, t, idx, new, style=style)
+        except ul.CaseInvalid:
+            continue
+        case = {"history": h, "tree": t, "idx": idx, "new": new, "style": style}
+        if obs.get("exc") == "crash":
+            res.evaluations += 1
+            res.disagreements.append({"name": "the implementation raised {} where the model returns".format(obs["what"]),
+                                      "kind": "tree", "case": case})
+            continue
+        if not obs["exact"]:
+            res.count("skipped:inexact-float-exponent")
+            continue
+        res.evaluations += 1
+        res.count("set-unit-then-recalculate")
+        nt = ul.replace_leaf(t, idx, new)
+        shown = ul.shown_items(obs, False)
+
+        def mk(enc, h=h, nt=nt, obs=obs, shown=shown):
+            return "({}, {}, {}, {}, false)".format(enc.history(h), enc.tree(nt), enc.obs(obs), enc.opt_umap(shown))
+        entries.append((mk, {"kind": "tree", "case": case}))
     # recalculate() after the definitions changed
     rec_entries = []
     for _ in range(ctx.n(150, 1500)):
@@ -321,7 +347,7 @@ def check_case(case):
         for c in case["session"]:
             why = check_case(c)
         return "after {} earlier operation(s) in the same interpreter: {}".format(len(case["session"]) - 1, why) if why else None
-    why = ul.oracle_check(case.get("history", []), case["tree"], case.get("frac", False), case.get("style"))
+    why = ul.check_one(case)
     if why:
         return why
     if case.get("clear"):
@@ -346,6 +372,9 @@ def report(case, why, journal=()):
         sess = {"session": prefix + [case]}
         return Violation(ID, "tree", sess, check_case(sess) or why)
 
+    if "idx" in case:
+        return Violation(ID, "tree", case, why)
+
     def fails(h, t):
         return fails_alone(dict(case, history=h, tree=t))
     h, t = ul.shrink_case(case.get("history", []), case["tree"], fails)
@@ -362,7 +391,8 @@ def search(ctx, suspects, budget):
     for s in suspects:
         c = s.get("case")
         if c and s.get("kind") in ("tree", "recalc"):
-            todo.append({"history": c.get("history", []), "tree": c["tree"], "frac": c.get("frac", False), "style": c.get("style")})
+            todo.append(dict(c) if "idx" in c else {"history": c.get("history", []), "tree": c["tree"], "frac": c.get("frac", False),
+                                                     "style": c.get("style")})
         elif c and s.get("kind") == "operate" and len(c.get("args", [])) in (1, 2) and c["op"] in ul.UN_OPS + ul.BIN_OPS:
             t = [("un" if len(c["args"]) == 1 else "bin"), c["op"]] + [ul.leaf(a) for a in c["args"]]
             todo.append({"history": c.get("history", []), "tree": t, "frac": False})
@@ -386,6 +416,10 @@ def search(ctx, suspects, budget):
         elif rng.random() < 0.35:
             case = {"steps": ul.gen_session(rng), "style": ul.rand_style(rng, 0.6)}
             n_sessions += 1
+        elif rng.random() < 0.08:
+            h = ul.rand_history(rng)
+            t, idx, new = ul.gen_setunit(rng, h, ul.named_leafgen(h))
+            case = {"history": h, "tree": t, "idx": idx, "new": new, "style": ul.rand_style(rng, 0.6)}
         else:
             h, t = gen_tree_case(rng)
             case = {"history": h, "tree": t, "frac": rng.random() < 0.08, "clear": rng.random() < 0.15,
